@@ -436,6 +436,40 @@ func genUDPCase(h *H, r *vhlib.Rand) {
 	}
 }
 
+// manyPeers: a well-formed announce reply with k records
+func manyPeers(r *vhlib.Rand, alen, k int) []byte {
+	rest := make([]byte, 12)
+	binary.BigEndian.PutUint32(rest[0:], uint32(r.PickInt(120, 600, 1800, 3600)))
+	binary.BigEndian.PutUint32(rest[4:], uint32(r.Intn(100)))
+	binary.BigEndian.PutUint32(rest[8:], uint32(r.Intn(100)))
+	rest = append(rest, r.Bytes((alen+2)*k)...)
+	return dgram(1, 0, rest)
+}
+
+// genConcUDPCase: both address families answer with their own peers; the exchanges overlap
+func genConcUDPCase(h *H, r *vhlib.Rand) {
+	h.opNew("udp", false, "dual")
+	V := int64(1000+r.Intn(1000)) * nsSecond
+	for i, n := 0, 1+r.Intn(2); i < n; i++ {
+		V = h.nextNow(r, V)
+		var s4, s6 udpScript
+		if r.Chance(75) {
+			s4 = udpScript{dial: true, connect: [][]byte{dgram(0, 0, r.Bytes(8))}, announce: [][]byte{manyPeers(r, 4, r.PickInt(0, 1, 2, 3, 5, 8, 20))}}
+			s6 = udpScript{dial: true, connect: [][]byte{dgram(0, 0, r.Bytes(8))}, announce: [][]byte{manyPeers(r, 16, r.PickInt(0, 1, 2, 3, 5, 8))}}
+			if r.Chance(20) { // a retransmission round first
+				s6.connect = append([][]byte{r.Bytes(3)}, s6.connect...)
+			}
+		} else {
+			s4, _ = genUDP(r, 4, h.eekBad)
+			s6, _ = genUDP(r, 16, h.eekBad)
+		}
+		h.opAudp(V, s4, s6, "conc", r.PickInt(4, 6))
+	}
+	// one exchange after the other on the same process: a long reply, then a shorter one
+	h.opFudp(4, udpScript{dial: true, connect: [][]byte{dgram(0, 0, r.Bytes(8))}, announce: [][]byte{manyPeers(r, 4, 6+r.Intn(10))}}, "seq-long")
+	h.opFudp(4, udpScript{dial: true, connect: [][]byte{dgram(0, 0, r.Bytes(8))}, announce: [][]byte{manyPeers(r, 4, r.Intn(3))}}, "seq-short")
+}
+
 func (h *H) generate() {
 	r := h.c.R
 	// the known crash first, on the harness goroutine where it can be caught
@@ -448,7 +482,15 @@ func (h *H) generate() {
 	h.opRR(16, 0, tid, atts, "foreign4")
 	h.eekBad = len(h.c.Rep.Violations) > nv
 	for i := 0; i < h.c.N && hangs == 0; i++ {
-		switch k := r.Intn(100); {
+		switch k := r.Intn(114); {
+		case k >= 110:
+			if h.ne.v6 {
+				genConcUDPCase(h, r)
+			} else {
+				genTick(h, r)
+			}
+		case k >= 100:
+			genTick(h, r)
 		case k < 40:
 			genRR(h, r)
 		case k < 50:
